@@ -63,6 +63,7 @@ func genConfig(t *rapid.T, p *Profile) HConfig {
 	if p.ForceSingle && c.Single == 0 {
 		c.Single = 2
 	}
+	c.CheckEvery = pick(t, []int{1, 1, 1, 2, 3, 6}, "check_every")
 	c.SmallKeys = p.SmallKeys
 	c.RelTime = p.RelTime
 	return c
